@@ -98,12 +98,12 @@ def merge_streams(outs):
 
 # per property: Lean modules holding its theorems, the streams it runs, the oracle it reads
 SPECS = {
-    "C01": dict(modules=["Ovldverif.Props.C01", "Ovldverif.Props.C01Dep"], streams=["fn", "fn_rich", "dep_f", "rewrite"], oracle="C01"),
-    "C10": dict(modules=["Ovldverif.Props.C10"], streams=["dep_e", "dep_f", "dep_lit"], oracle="C10"),
-    "C11": dict(modules=["Ovldverif.Props.C11", "Ovldverif.Props.C11Comb", "Ovldverif.Props.C10", "Ovldverif.Props.C15"], streams=["dep_e", "dep_f", "dep_lit", "annotations"], oracle="C11"),
+    "C01": dict(modules=["Ovldverif.Props.C01", "Ovldverif.Props.C01Dep"], streams=["fn", "fn_rich", "dep_f", "dep_e", "dep_comb", "rewrite"], oracle="C01"),
+    "C10": dict(modules=["Ovldverif.Props.C10"], streams=["dep_e", "dep_f", "dep_lit", "dep_comb"], oracle="C10"),
+    "C11": dict(modules=["Ovldverif.Props.C11", "Ovldverif.Props.C11Comb", "Ovldverif.Props.C10", "Ovldverif.Props.C15"], streams=["dep_e", "dep_f", "dep_lit", "dep_comb", "annotations"], oracle="C11"),
     "C02": dict(modules=["Ovldverif.Props.C02"], streams=["table_static", "fn_static", "levels"], oracle="C02"),
     "C03": dict(modules=["Ovldverif.Props.C03"], streams=["fn", "fn_static"], oracle="C03"),
-    "C04": dict(modules=["Ovldverif.Props.C04"], streams=["table_static", "table_rich", "fn"], oracle="C04"),
+    "C04": dict(modules=["Ovldverif.Props.C04"], streams=["table_static", "table_rich", "fn", "dep_f"], oracle="C04"),
     "C05": dict(modules=["Ovldverif.Props.C05"], streams=["table_static", "table_rich", "fn", "fn_types"], oracle="C05"),
     "C06": dict(modules=["Ovldverif.Props.C06"], streams=["table_static", "fn_static", "levels", "levels_rich"], oracle="C06"),
     "C07": dict(modules=["Ovldverif.Props.C07"], streams=["table_static", "fn_static", "levels"], oracle="C07"),
@@ -128,6 +128,7 @@ STREAMS = {
     "fn_rich": ("check_fn", "worker", lambda seed, n: (seed + 17, n, {"static_only": False, "bodies": True}), "F"),
     "dep_e": ("check_dep", "worker_e", lambda seed, n: (seed + 29, n, None), "E"),
     "dep_lit": ("check_dep", "worker_e", lambda seed, n: (seed + 31, n, "literals"), "E"),
+    "dep_comb": ("check_dep", "worker_e", lambda seed, n: (seed + 33, n, "combos"), "E"),
     "dep_f": ("check_dep", "worker_f", lambda seed, n: (seed + 37, max(10, n // 2), None), "F"),
     "levels": ("corr_c", "worker", lambda seed, n: (seed + 41, n, True), "C"),
     "levels_rich": ("corr_c", "worker", lambda seed, n: (seed + 43, n, False), "C"),
